@@ -35,6 +35,7 @@ MIRRORED = {
     "core/src/typecheck/reporting.rs": ("C10", "coq/Crash/NameReg.v", ["gen_candidate_name", "select_uniq", "gen_var_name", "gen_cst_name", "taken", "insert"]),
     "core/src/term/string.rs": ("C10", "coq/Crash/Index.v", ["substring", "find_all_regex", "find_regex"]),
     "core/src/pretty.rs": ("C10", "coq/Crash/Index.v", ["pretty_print_cap"]),
+    "core/src/error/mod.rs": ("C10", "printer/parser law (checks/c10.py run_type_law)", ["path_span", "report_ty_path"]),
     "core/src/ast/compat.rs": ("C10", "coq/Crash/{TypePos,MergeDispatch}.v", None),
     "parser/src/uniterm.rs": ("C10", "coq/Crash/TypePos.v", ["fix_type_vars_env", "fix_type_vars", "fix_field_types", "fix_for_annotation"]),
     "core/src/serialize/mod.rs": ("C10", "coq/Crash/TomlFloats.v", ["number_from_float", "check_floats", "check_value", "range_pos", "from_str", "ast_from_str",
